@@ -80,6 +80,12 @@ fn main() {
         "Fq12_mul_assign" => { let mut s = e.fq12("self"); s.mul_assign(&e.fq12("other")); o12(&s, &mut out); }
         "Fq12_square" => { let mut s = e.fq12("self"); s.square(); o12(&s, &mut out); }
         "Fq12_mul_by_014" => { let mut s = e.fq12("self"); s.mul_by_014(&e.fq2("c0"), &e.fq2("c1"), &e.fq2("c4")); o12(&s, &mut out); }
+        "Fq2_frobenius_map" => { let mut s = e.fq2("self"); s.frobenius_map(e.s("k").parse().unwrap()); o2(&s, &mut out); }
+        "Fq6_frobenius_map" => { let mut s = e.fq6("self"); s.frobenius_map(e.s("k").parse().unwrap()); o6(&s, &mut out); }
+        "Fq12_frobenius_map" => { let mut s = e.fq12("self"); std::panic::set_hook(Box::new(|_| {})); let k: usize = e.s("k").parse().unwrap();
+                                  match std::panic::catch_unwind(move || { s.frobenius_map(k); s }) { Ok(r) => o12(&r, &mut out), Err(_) => { tag = "panic".into(); } } }
+        "Fq6_is_zero" => { tag = format!("{}", e.fq6("self").is_zero()); }
+        "Fq12_is_zero" => { tag = format!("{}", e.fq12("self").is_zero()); }
         "Fq12_inverse" => { match e.fq12("self").inverse() { Some(y) => { tag = "some".into(); o12(&y, &mut out) } None => tag = "none".into() } }
         // ---- curve operations on arbitrary Jacobian triples (built with the public transmute constructors)
         "G1_op" | "G2_op" => {
